@@ -327,3 +327,34 @@ func FuncName(f *ssa.Function) string {
 	s = strings.ReplaceAll(s, RootMod, "mtproto")
 	return s
 }
+
+// TypeOf returns the named type pkg.name.
+func (p *Program) TypeOf(pkg, name string) (*types.Named, bool) {
+	sp := p.SSAPkgs[pkg]
+	if sp == nil {
+		return nil, false
+	}
+	t := sp.Type(name)
+	if t == nil {
+		return nil, false
+	}
+	n, ok := t.Type().(*types.Named)
+	return n, ok
+}
+
+// MethodsOf lists the methods (pointer receiver method set) of pkg.name, sorted by name.
+func (p *Program) MethodsOf(pkg, name string) []*ssa.Function {
+	n, ok := p.TypeOf(pkg, name)
+	if !ok {
+		return nil
+	}
+	ms := p.SSA.MethodSets.MethodSet(types.NewPointer(n))
+	var out []*ssa.Function
+	for i := 0; i < ms.Len(); i++ {
+		if f := p.SSA.MethodValue(ms.At(i)); f != nil {
+			out = append(out, f)
+		}
+	}
+	sort.Slice(out, func(i, j int) bool { return out[i].Name() < out[j].Name() })
+	return out
+}
